@@ -88,6 +88,8 @@ def shards(tier, seed):
     for M in ([64] if tier == 'quick' else [64, 100]):
         for L in (None, 400):
             out.append(('multipart', L, M, None, tier))
+    # a threshold that is large against the part headers (several fields fit one by one, not together)
+    out.append(('multipart', None, 1024, None, tier))
     # seed extension: another (limit, threshold) pair, enumerated just as exhaustively
     out.append(('plain', 3 + seed % 9, 2 + seed % 6, 'raw', tier))
     out.append(('plain', 3 + seed % 9, 2 + seed % 6, 'urlencoded', tier))
@@ -298,6 +300,11 @@ def mp_cases(M):
         out.append([('t', None, b'z' * (M - hdr_t + d)), ('u', None, b'w' * (3 * M))])
     half = (M - 2 * hdr_t) // 2
     out.append([('t', None, b'z' * half), ('u', None, b'y' * (M - 2 * hdr_t - half)), ('v', None, b'w' * (3 * M))])
+    # several fields that fit one by one (and pairwise) but not together; text fields separated by an upload
+    q = max(1, (4 * M) // 10)
+    out.append([('t', None, b'z' * q), ('u', None, b'y' * q), ('v', None, b'w' * q)])
+    out.append([('t%d' % i, None, b'z' * q) for i in range(6)])
+    out.append([('t', None, b'z' * ((7 * M) // 10)), ('f', 'n.bin', b'q' * 3), ('u', None, b'w' * ((7 * M) // 10))])
     # a part with an EMPTY file name (a file input left empty): whichever way it is classified, no more than M bytes of
     # text may reach request.forms
     for e in (0, 1, M, M + 1, 3 * M):
